@@ -215,7 +215,11 @@ func RunCopy(o *Out) {
 		"Gate": {},
 	}
 	for _, phase := range []string{"idle", "inhandler"} {
-		for _, cc := range copyCases() {
+		// reference: the same run with a caller that leaves the returned value
+		// alone; what the machine ends up as once its queue has drained
+		var refFinal *MachSnap
+		cases := append([]copyCase{{"", "reference", false, func(m *am.Machine) {}}}, copyCases()...)
+		for _, cc := range cases {
 			m := am.New(context.Background(), schema, &am.Opts{HandlerTimeout: time.Hour})
 			names := append(am.S{}, m.StateNames()...) // private copy of the index
 			m.SetTags([]string{"t1", "t2"})
@@ -228,6 +232,9 @@ func RunCopy(o *Out) {
 				before := snapMach(m, names)
 				cc.do(m)
 				after := snapMach(m, names)
+				if cc.getter == "" {
+					return
+				}
 				o.EmitGroup(SnapLine{"snap", before},
 					MutRetLine{"mutret", cc.getter, cc.how, phase, cc.deep, after})
 				o.mx.Lock()
@@ -246,8 +253,23 @@ func RunCopy(o *Out) {
 					m.Add(am.S{"D", "C"}, nil)
 					run()
 				}
-				m.Add1("Gate", nil)
+				func() {
+					// a machine that was altered through the "copy" may well crash
+					// while it drains the queue: that is an observation, not the
+					// driver's end
+					defer func() { _ = recover() }()
+					m.Add1("Gate", nil)
+				}()
 				<-done
+			}
+			// ... and the machine goes on exactly as it would have: same final
+			// state once the queue has drained (judged like a second snapshot)
+			final := snapMach(m, names)
+			if cc.getter == "" {
+				refFinal = &final
+			} else if !cc.deep && cc.getter != "StateNames" && refFinal != nil {
+				o.EmitGroup(SnapLine{"snap", *refFinal},
+					MutRetLine{"mutret", cc.getter, cc.how + " (after the queue drained)", phase, cc.deep, final})
 			}
 			m.Dispose()
 		}
